@@ -41,6 +41,10 @@ checks = {
    text='The flusher only runs when the history ticks the virtual clock, so visibility with a frozen flusher, threshold- and timeout-driven flushes, Close/FlushAll completeness and never-resurrected deletes are decided without wall-clock time.', ref='4/C10'),
  'C17': dict(cat='exploration', tech='tree-hash monitor + error-class oracle over shape pairs; model sweep + child survival over live settings switches with pending writes and flusher ticks',
    text='8 shape changes x 6 stored configurations x 18 operations must be refused with ErrStructureChanged and leave every byte untouched; constraint/extension changes are refused; Create switching cache/async on a live handle with pending writes must lose nothing.', ref='4/C17'),
+ 'C08': dict(cat='exploration', tech='Go race detector over perturbed concurrent workloads + porcupine linearizability check of client-boundary histories against a sequential model; invariant hook at the join',
+   text='Thousands of short multi-client histories (incl. first-access storms after Open and chained search refinements) run under -race with injected yields; single-lock operations are checked for linearizability with porcupine, compound ones with a weaker per-object oracle and the index invariant hook.', ref='4/C08'),
+ 'C09': dict(cat='exploration', tech='lock-discipline monitor on every mutex operation of the package (recursive acquisition, lock-order inversion, wait-for cycle) over a reflection-driven coverage walk and contention stress',
+   text='A single execution of each exported method under the monitor decides its lock discipline for every schedule (a recursive RLock is a deadlock waiting for a writer); contention stress adds actual wait-for-cycle detection. Undriven call paths are not seen.', ref='4/C09'),
 }
 notes = {}
 m = {
